@@ -36,4 +36,11 @@ def function_level(ctx: fw.Ctx) -> None:
 
 def replay(ctx: fw.Ctx, body: dict) -> bool:
     ctx.matchers = {'F6': match_f6}
+    if 'scenario' not in (body.get('case') or {}):     # a function-level failing input: the model module replays it
+        try:
+            from kv.props import c02_model
+        except ImportError:
+            print('replay file carries no scenario and there is no function-level layer')
+            return False
+        return c02_model.replay(ctx, body)
     return cr.replay_scenario(ctx, body, MONITORS)
